@@ -102,8 +102,8 @@ Section Kholaw.
 
   (* Ed25519KholawPrivateKey.FromBytes + PublicKey(), as run by Bip32Base.__init__(priv_key=bytes):
      the left half must make a 32-byte nacl seed, the right half must be 32 bytes (else ValueError ->
-     Bip32KeyError); the public key is (kL with bit 255 cleared)*G, and a zero scalar / identity result is
-     the plain ValueError of ed25519_lib. *)
+     Bip32KeyError); the public key is (kL with bit 255 cleared)*G, and a zero scalar / identity result
+     (ValueError of ed25519_lib) is reported by Bip32Base as Bip32KeyError too. *)
   Definition priv_check (k : list N) : res (list N) :=
     key_err (guard (length (firstn ed_priv_len k) =? ed_priv_len)%nat else ValueError ;;
              guard (length (skipn ed_priv_len k) =? ed_priv_len)%nat else ValueError ;;
@@ -112,7 +112,7 @@ Section Kholaw.
     EdLib.mul_base_bytes G gmul gbase g_is_zero penc (firstn ed_priv_len k).
   Definition node_from_priv (k cc : list N) (depth : N) : res node :=
     k' <- priv_check k ;;
-    p <- pub_of_priv k' ;;
+    p <- key_err (pub_of_priv k') ;;
     Ok (mk_node (Some k') p cc depth).
 
   (* Bip32Base.__init__(pub_key=point): Ed25519KholawPublicKey.FromPoint re-validates the encoding *)
